@@ -7,6 +7,22 @@ def _lst(bs):
     return "[" + ", ".join(str(b) for b in bs) + "]"
 
 
+def probe_upgrade_before_must_close():
+    """source-order probe of keepalive_possible() (connection.c): is a response with an upgrade handler decided
+    (MHD_CONN_MUST_UPGRADE) before the `MHD_CONN_MUST_CLOSE == c->keepalive` test?  In the unrepaired code the close test
+    comes first: a request with both Content-Length and chunked Transfer-Encoding (accepted at the default discipline
+    level, keepalive forced to MUST_CLOSE) then gets `Connection: close, Upgrade` in its 101 head
+    (build/fixes/C20_upgrade_on_must_close.diff)."""
+    from extract import src
+    cc = src("src/microhttpd/connection.c")
+    m = re.search(r"\nkeepalive_possible \(struct MHD_Connection \*connection\)\s*\{(.*?)\n\}", cc, re.S)
+    if not m:
+        return False
+    body = m.group(1)
+    i_up, i_mc = body.find("r->upgrade_handler"), body.find("MHD_CONN_MUST_CLOSE == c->keepalive")
+    return 0 <= i_up and (i_mc < 0 or i_up < i_mc)
+
+
 def gen_upg():
     """(A) regenerate lean/Mhd/Gen/Upg.lean from the current source tree"""
     from extract import c_eval, src, prev_value, HEADER, GEN
@@ -25,6 +41,8 @@ def gen_upg():
                 ("c11_fut", "%d", "(int) (MHD_IS_HTTP_VER_1_1_COMPAT (MHD_HTTP_VER_FUTURE))")])
     # behavioural probe of MHD_str_has_token_caseless_: does a comma that ends a partly matching element
     # start the next element (repaired code, build/fixes/F17b.diff) or is the next element skipped?
+    v3 = c_eval('#include "MHD_config.h"\n#include <limits.h>\n#include "mhd_sockets.h"\n',
+                [("ssize_max", "%llu", "(unsigned long long) SSIZE_MAX"), ("send_max", "%llu", "(unsigned long long) MHD_SCKT_SEND_MAX_SIZE_")])
     v2 = c_eval('#include "MHD_config.h"\n#include "mhd_str.c"\n',
                 [("comma", "%d", "(int) MHD_str_has_token_caseless_ (\"up, upgrade\", \"upgrade\", 7)")])
     cc = src("src/microhttpd/connection.c")
@@ -50,6 +68,13 @@ def gen_upg():
                                                           for k in ("c11_10", "c11_11", "c11_12", "c11_fut")) \
         + "/-- MHD_str_has_token_caseless_: a comma that stops a partial match ends that element only (probe \"up, upgrade\") -/\n" \
         + "def tokCommaEndsElement : Bool := %s\n" % ("true" if v2["comma"] == "1" else "false") \
+        + "/-- keepalive_possible(): an upgrade response is decided MUST_UPGRADE before the connection's MUST_CLOSE is looked at "\
+          "(source-order probe; false = unrepaired: `close, ` is put in front of the 101's Connection value for requests "\
+          "that force MUST_CLOSE) -/\n" \
+        + "def upgradeBeforeMustClose : Bool := %s\n" % ("true" if probe_upgrade_before_must_close() else "false") \
+        + "/-- clamps of the forwarding layer (process_urh): SSIZE_MAX, MHD_SCKT_SEND_MAX_SIZE_ -/\n" \
+        + "def ssizeMax : Nat := %s\n" % v3["ssize_max"] \
+        + "def sendMax : Nat := %s\n" % v3["send_max"] \
         + "end Mhd.Gen.Upg\n"
     return vlib.write_if_changed(os.path.join(GEN, "Upg.lean"), out)
 
@@ -242,6 +267,12 @@ REQ_VARS = [
 ]
 
 
+# a request that forces MHD_CONN_MUST_CLOSE (both framings; accepted at the default discipline level): generated once
+# keepalive_possible() decides an upgrade response first (probe_upgrade_before_must_close; until then the daemon puts
+# `close, ` in front of the application's Connection value — finding reported with build/fixes/C20_upgrade_on_must_close.diff)
+REQ_TE_CL = ("te-cl-early", {"method": b"POST", "extra": b"Transfer-Encoding: chunked\r\nContent-Length: 5\r\n"}, True)
+
+
 def hdr_case(name, mode, mem, timing, flags, flags_late, cedit, other, reqv, parts_at, early, nodate, rng):
     """one decorated upgrade response; `parts_at` = split positions of head+following"""
     clabel, cops, ok = cedit
@@ -289,6 +320,7 @@ def gen_hdr_cases(ctx, tier):
     timings = ("later", "inside", "never")
     n = len(mk_head() + FOLLOW)
     i = 0
+    REQS = REQ_VARS + [REQ_TE_CL]  # always generated (finding F37, repaired by 88c7ade): a return of the defect must be reported
 
     def one(flags, ce, oh, rv, late=None):
         nonlocal i
@@ -303,19 +335,19 @@ def gen_hdr_cases(ctx, tier):
     # every Connection edit x every flag combination (request / other headers rotate)
     for ce in CONN_EDITS:
         for flags in FLAGS_OK + FLAGS_REFUSED:
-            one(flags, ce, OTHER_HDRS[i % len(OTHER_HDRS)], REQ_VARS[i % len(REQ_VARS)])
+            one(flags, ce, OTHER_HDRS[i % len(OTHER_HDRS)], REQS[i % len(REQS)])
     # every other-header decoration x legal flags x every request variation
     for oh in OTHER_HDRS:
         for flags in FLAGS_OK:
-            for rv in REQ_VARS:
+            for rv in REQS:
                 one(flags, CONN_EDITS[i % 15], oh, rv)
     # the keep-alive response flag on its own: every request variation x timing x mode x early/late x set early/late
-    for rv in REQ_VARS:
+    for rv in REQS:
         for k in range(12):
             one(8, CONN_EDITS[0], OTHER_HDRS[0], rv, late=bool(k % 2))
     # random combinations
     for _ in range(6000 if tier == "thorough" else 400):
-        one(rng.choice(FLAGS_OK + FLAGS_OK + FLAGS_REFUSED), rng.choice(CONN_EDITS), rng.choice(OTHER_HDRS), rng.choice(REQ_VARS))
+        one(rng.choice(FLAGS_OK + FLAGS_OK + FLAGS_REFUSED), rng.choice(CONN_EDITS), rng.choice(OTHER_HDRS), rng.choice(REQS))
     return cases
 
 
@@ -426,20 +458,29 @@ def gen_multi_cases(ctx, tier):
     return cases
 
 
+# internal threads: (mode, thread pool size); `tpc` = thread per connection
+THR_CONFIGS = [("select-thr", 0), ("poll-thr", 0), ("epoll-thr", 0), ("tpc", 0),
+               ("select-thr", 1), ("poll-thr", 2), ("epoll-thr", 3), ("epoll-thr", 4)]
+
+
 def gen_thr_cases(ctx, tier):
-    """internal polling thread: the split between reads is decided by the daemon thread; the recv
-    sizes are taken from the log (hints) and rounds are only pauses"""
+    """internal polling thread(s), thread pool, thread per connection: the split between reads is decided by the daemon's
+    threads; the recv sizes are taken from the log (hints) and rounds are only pauses"""
     rng = ctx.rng
     cases = []
     head = mk_head()
     stream = head + FOLLOW
     j = 0
-    for mode in MODES_THR:
+    for (mode, pool) in THR_CONFIGS:
         for t in ("inside", "later", "never"):
-            for rep in range(4):
+            for rep in range(4 if tier == "thorough" else 1):
                 pos = sorted(rng.sample(range(1, len(stream)), rng.randint(0, 2)))
-                cases.append(split_case("thr-%s-%s-%d" % (mode, t, rep), mode, ARENAS[j % 3], t, cuts(stream, pos), 1,
-                                        bool(j % 2), b"tail-thr", rng, hints=True, relaxed=True)); j += 1
+                cs = split_case("thr-%s-p%d-%s-%d" % (mode, pool, t, rep), mode, ARENAS[j % 3], t, cuts(stream, pos), 1,
+                                bool(j % 2), b"tail-thr", rng, hints=True, relaxed=True)
+                if pool:
+                    cs.lines[1] += " pool=%d" % pool
+                cs.meta["pool"] = pool
+                cases.append(cs); j += 1
     return cases
 
 
@@ -513,6 +554,7 @@ def canon_harness(ops):
     seq, wire, recvs, glob = {}, {}, {}, []
     upgraded, arrived = set(), []
     objs = {}
+    pend_close = {}
 
     def add(c, item):
         seq.setdefault(c, []).append(item)
@@ -553,8 +595,13 @@ def canon_harness(ops):
             elif t == "upgrade":
                 add(c, "upgrade extra=" + hx(unhx(k["extra"])))
                 upgraded.add(c)
+            elif t == "up-closing":
+                add(c, "up-close -> ?"); pend_close[c] = len(seq[c]) - 1       # the action starts here; result follows
             elif t == "up-close":
-                add(c, "up-close -> " + w[-1])
+                if c in pend_close:
+                    seq[c][pend_close.pop(c)] = "up-close -> " + w[-1]
+                else:
+                    add(c, "up-close -> " + w[-1])
             elif t == "up-data":
                 add(c, "up-data " + hx(unhx(w[2])))
             elif t == "up-sent":
@@ -747,6 +794,13 @@ def oracle_case(case_lines, hlines, threaded):
             elif t == "queued":
                 q = int(w[w.index("->") + 1])
                 rec = (int(k["r"]), int(k["rid"]), int(k["code"]), int(k["unchanged"]))
+                if q != 1 and o == "stop":
+                    # internal threads: the handler ran while MHD_stop_daemon was already in progress; a refusal is then
+                    # the shutdown rule of MHD_queue_response, not a precondition verdict
+                    S(c)["refused_at_stop"] = S(c).get("refused_at_stop", 0) + 1
+                    if rec[3] != 1:
+                        err.append("c=%d: refused MHD_queue_response changed the connection (rid=%d)" % (c, rec[1]))
+                    continue
                 (S(c)["accepted"] if q == 1 else S(c)["refused"]).append(rec)
                 if q != 1 and rec[3] != 1:
                     err.append("c=%d: refused MHD_queue_response changed the connection (rid=%d)" % (c, rec[1]))
@@ -770,6 +824,9 @@ def oracle_case(case_lines, hlines, threaded):
                     err.append("c=%d: the socket handed over is not the connection's socket" % c)
             elif t == "up-data":
                 S(c)["updata"] += unhx(w[2])
+            elif t == "up-closing":
+                S(c)["closed_by_app"] = True
+                S(c)["close_op"] = i
             elif t == "up-close":
                 if w[-1] != "1":
                     err.append("c=%d: close action refused" % c)
@@ -783,7 +840,10 @@ def oracle_case(case_lines, hlines, threaded):
                 if x["upgraded"]:
                     if int(k["code"]) != 0:
                         err.append("c=%d: upgraded request completed with code %s" % (c, k["code"]))
-                    if not x["closed_by_app"] and o != "stop":
+                    # thread-per-connection: the connection's thread reports the HTTP request as completed as soon as the
+                    # upgrade handler has returned (daemon.c thread_main_handle_connection: "Normal HTTP processing is
+                    # finished, notify application"); everywhere else the notification belongs to the release
+                    if not x["closed_by_app"] and o != "stop" and cfg.get("mode") != "tpc":
                         err.append("c=%d: completion notified while the application still owns the socket" % c)
             elif t == "conn-close":
                 S(c)["close"] += 1; S(c)["order"].append("conn-close"); S(c)["done_op"] = i
@@ -804,6 +864,8 @@ def oracle_case(case_lines, hlines, threaded):
     # ---- end-of-case judgements
     for c, x in sorted(conn.items()):
         stream = sent.get(c, b"")
+        if threaded and x["start"] == 0 and x["close"] == 0 and not x["handler"] and not x["upgraded"] and x["sclose"] == 1:
+            continue      # stopped before the daemon's thread had taken the new connection up: closed without notifications
         if x["start"] != 1:
             err.append("c=%d: %d connection-started notifications" % (c, x["start"]))
         if stop_seen[0] or x["close"]:
@@ -930,6 +992,112 @@ def oracle_case(case_lines, hlines, threaded):
     return err
 
 
+# --------------------------------------------------------------------------- engine `upgtls`: process_urh white-box
+
+TLS_RES_OK = ["ok:1", "ok:2", "ok:3", "ok:5", "ok:8", "ok:17", "ok:999"]
+
+
+def gen_tls_cases(ctx, tier):
+    """random histories of one forwarding handle: client / application writes, visits with any readiness bits and any
+    outcome of the four I/O calls, the close action, a shutdown visit.  `clean` cases use no hard errors and end with a
+    drain phase: there everything must arrive."""
+    rng = ctx.rng
+    cases = []
+    n = 12000 if tier == "thorough" else 1500
+    for j in range(n):
+        clean = (j % 3 == 0)
+        cap = rng.choice([1, 2, 3, 5, 8, 16, 64])
+        L = ["case tls-%d" % j, "init cap=%d%s" % (cap, " tpc=1" if j % 7 == 3 else "")]
+        closed = False
+        total = 0
+        for _ in range(rng.randint(3, 14)):
+            x = rng.random()
+            if x < 0.25:
+                k = rng.randint(1, 20); total += k
+                L.append("csend " + bytes(rng.randrange(256) for _ in range(k)).hex())
+            elif x < 0.45 and not closed:
+                k = rng.randint(1, 20); total += k
+                L.append("asend " + bytes(rng.randrange(256) for _ in range(k)).hex())
+            elif x < 0.50 and not clean and not closed:
+                L.append("aclose"); closed = True
+            else:
+                def res(err_ok):
+                    y = rng.random()
+                    if y < 0.70:
+                        return rng.choice(TLS_RES_OK)
+                    if y < 0.85 or not err_ok:
+                        return rng.choice(["again", "intr"])
+                    return rng.choice(["eof", "fatal"])
+                bits = (lambda: rng.choice([0, 1, 2, 3, 3, 3])) if clean else (lambda: rng.choice([0, 1, 2, 3, 3, 3, 4, 5, 6, 7]))
+                L.append("visit lv=%d r=%d p=%d tr=%s pend=%d pr=%s ts=%s ps=%s%s" % (
+                    rng.getrandbits(1), bits(), bits(), res(not clean), rng.getrandbits(1), res(not clean), res(not clean), res(not clean),
+                    " sh=1" if (not clean and rng.random() < 0.04) else ""))
+        if clean:
+            for _ in range(total // cap + 4):
+                L.append("visit lv=0 r=3 p=3 tr=ok:999 pend=0 pr=ok:999 ts=ok:999 ps=ok:999")
+            L.append("aclose")
+            L.append("visit lv=1 r=3 p=3 tr=again pend=0 pr=again ts=again ps=again")
+        elif rng.random() < 0.5:
+            L.append("visit lv=1 r=3 p=3 tr=ok:9 pend=0 pr=ok:9 ts=ok:9 ps=ok:9 sh=1")
+        cases.append(Case("tls-%d" % j, L, meta={"kind": "tls", "clean": clean, "cap": cap}))
+    return cases
+
+
+def oracle_tls(lines, outs, clean):
+    """independent statement of the forwarding property over what the real process_urh did: what reached the
+    application is a prefix of what the client sent (with the forwarding buffer: as long as nothing had to be discarded),
+    same for the other direction; fill levels within the allocation; a clean handle is empty; in a clean history
+    everything arrives"""
+    err = []
+    csent = asent = to_app = to_cli = b""
+    cap = 0
+    in_drop = out_drop = False
+    for l, o in zip(lines, outs):
+        w = l.split()
+        if w[0] == "init":
+            cap = int(kvs(w)["cap"])
+        elif w[0] == "csend":
+            csent += bytes.fromhex(w[1])
+        elif w[0] == "asend":
+            k = kvs(o.split())
+            asent += bytes.fromhex(w[1])[:int(k.get("n", "0"))]
+        elif w[0] == "aclose":
+            in_drop = True
+        elif w[0] == "visit":
+            if o.startswith("overrun"):
+                err.append("forwarding buffer fill level above its allocation"); break
+            k = kvs(o.split()); a = kvs(w)
+            if "inU" not in k:
+                err.append("unexpected output: " + o[:60]); break
+            if a.get("sh") == "1":
+                in_drop = out_drop = True
+            if a.get("ps") in ("fatal", "eof"):
+                in_drop = True
+            if a.get("ts") in ("fatal", "eof"):
+                out_drop = True
+            to_app += unhx(k["app"]); to_cli += unhx(k["cli"])
+            ib, ob = unhx(k["in"]), unhx(k["out"])
+            if len(ib) != int(k["inU"]) or len(ob) != int(k["outU"]) or int(k["inU"]) > cap or int(k["outU"]) > cap \
+                    or int(k["inS"]) not in (0, cap) or int(k["outS"]) not in (0, cap):
+                err.append("fill level / size outside the allocation (%s)" % o[:60])
+            if not csent.startswith(to_app if in_drop else to_app + ib):
+                err.append("client->application: forwarded bytes are not a prefix of the sent ones (%s | %s)" % ((to_app + ib).hex(), csent.hex()))
+            if not asent.startswith(to_cli if out_drop else to_cli + ob):
+                err.append("application->client: forwarded bytes are not a prefix of the sent ones (%s | %s)" % ((to_cli + ob).hex(), asent.hex()))
+            if k["cr"] == "1" and (k["inU"], k["inS"], k["outU"], k["outS"]) != ("0", "0", "0", "0"):
+                err.append("clean_ready with data or an open direction (%s)" % o[:60])
+            if k["cr"] == "1" and k["eof"] == "0":
+                err.append("forwarding finished but the application does not see end of stream")
+    if clean and not err:
+        if to_app != csent:
+            err.append("clean history: %d of %d client bytes reached the application" % (len(to_app), len(csent)))
+        if to_cli != asent:
+            err.append("clean history: %d of %d application bytes reached the client" % (len(to_cli), len(asent)))
+        if not outs or "cr=1" not in outs[-1]:
+            err.append("clean history: close action not completed")
+    return err
+
+
 # --------------------------------------------------------------------------- Spec
 
 def sig_of(msg):
@@ -945,14 +1113,36 @@ class Spec:
                          "Mhd.C20.released_exactly_once_at_stop", "Mhd.C20.released_exactly_once_after_stop",
                          "Mhd.C20.never_twice", "Mhd.C20.close_action_releases_in_next_round",
                          "Mhd.C20.refused_unchanged", "Mhd.C20.unmet_precondition_refused",
-                         "Mhd.C20.ordinary_response_after_refusal_accepted"]
+                         "Mhd.C20.ordinary_response_after_refusal_accepted",
+                         "Mhd.C20.head101_is_reply_builder", "Mhd.C20.upgrade_head_connection_tokens", "Mhd.C20.head101_explicit",
+                         "Mhd.C20.upgrade_head_indep_of_request", "Mhd.C20.accepted_upgrade_is_101_http11",
+                         "Mhd.C20.tls_forwarding_fifo", "Mhd.C20.tls_buffers_never_overrun", "Mhd.C20.tls_no_loss_client_to_app",
+                         "Mhd.C20.tls_no_loss_app_to_client", "Mhd.C20.tls_released_exactly_once", "Mhd.C20.tls_app_close_completes",
+                         "Mhd.C20.tls_stop_completes", "Mhd.C20.tls_client_close_stops_reading"]
     trusted_base = ["Lean 4 kernel", "axioms: propext, Classical.choice, Quot.sound at most (audited per theorem)",
                     "hand-written model lean/Mhd/Model/Upg.lean + UpgDaemon.lean tied to connection.c/response.c/daemon.c by this run's correspondence",
+                    "the 101 head is C04's reply-builder model (lean/Mhd/Model/Reply.lean, Resp.lean) applied to the response object; tied here by "
+                    "the exact-head oracle and the response-object comparison (call results, flags_auto, header list) of every decorated case",
+                    "hand-written model lean/Mhd/Model/UpgTls.lean of process_urh and its callers' finish test, tied by the white-box engine upgtls "
+                    "(harness/h_upgtls.c: the real static process_urh, real MHD_connection_finish_forward_ and MHD_upgrade_action; GnuTLS record "
+                    "functions and recv/send on the forwarding socketpair interposed at link time and scripted)",
                     "request-head parser and ordinary reply bytes are parameters of the model (C02/C03/C04)",
                     "tools/props/C20.py gen_upg (status 101, reason phrase, header names, token, termination codes, version table regenerated)",
                     "harness/h_upg.c (socketpair connections, interposed recv/send/sendmsg/writev/shutdown/close), gcc, ASan/UBSan"]
-    assumptions = ["non-TLS daemon (TLS forwarding through process_urh is outside the model; partial)",
-                   "not thread-per-connection in the model; internal-thread modes are covered by the oracle and a relaxed comparison",
+    assumptions = ["thread-per-connection: the completion notification of the upgraded request is delivered when the upgrade handler returns "
+                   "(daemon.c thread_main_handle_connection), not with the release; the oracle accepts that there, the model (not "
+                   "thread-per-connection) is compared without the position of that event",
+                   "hand-over / cleanup model: non-TLS daemon; TLS forwarding: the record layer (GnuTLS) and the socketpair are the environment of the "
+                   "model (any result of each I/O call), the daemon lists around it (urh list, resume / cleanup of a TLS connection) are modelled "
+                   "but tied only up to the finish test (the TLS release path is not run against the real daemon: no TLS handshake in the harness)",
+                   "the connection is not already in MUST_CLOSE when the upgrade response is queued: a request with BOTH Content-Length and chunked "
+                   "Transfer-Encoding (accepted at the default discipline level) forces MUST_CLOSE and the unrepaired keepalive_possible() then puts "
+                   "`close, ` in front of the 101's Connection value (finding, fix build/fixes/C20_upgrade_on_must_close.diff); the request "
+                   "variation `te-cl-early` that shows it is generated as soon as the source has the repaired order (probe_upgrade_before_must_close) "
+                   "or with C20_TE_CL=1",
+                   "not thread-per-connection in the model; internal-thread modes (select/poll/epoll with one thread, thread pools of 1-4, thread "
+                   "per connection) x close inside the handler / later / never before stop are covered by the oracle and a relaxed comparison "
+                   "(recv partition from the log, round markers and FIN/RST at close not compared)",
                    "application uses the upgrade handle as documented (one CLOSE action, no use after it)",
                    "requests without body; no allocation failure at hand-over (C07)"]
 
@@ -965,6 +1155,7 @@ class Spec:
 
     def build(self, ctx):
         self.harness = vlib.build_daemon_harness(name="h_upg", src="harness/h_upg.c", ldextra=["-ldl"])
+        self.tls_harness = vlib.build_daemon_harness(name="h_upgtls", src="harness/h_upgtls.c", exclude=("daemon.c",), ldextra=["-ldl"])
         self.driver = vlib.driver_path("drv_upg")
 
     # -- one batch of cases through harness, driver, oracle
@@ -1049,6 +1240,13 @@ class Spec:
                         a, b = hseq.get(c, []), mseq.get(c, [])
                         if cs.relaxed:      # internal thread: rounds are pauses; order w.r.t. markers may shift
                             a = [x for x in a if not x.startswith("@")]; b = [x for x in b if not x.startswith("@")]
+                            # FIN or RST at the daemon's close depends on whether the client's last bytes arrived before it:
+                            # the oracle judges it against what was delivered
+                            a = ["end" if x in ("eof", "rst") else x for x in a]; b = ["end" if x in ("eof", "rst") else x for x in b]
+                        if cs.meta.get("mode") == "tpc":
+                            # the model is not thread-per-connection: there the completion notification comes right after the
+                            # hand-over instead of with the release (its count and its place before connection-closed: oracle)
+                            a = [x for x in a if not x.startswith("completed")]; b = [x for x in b if not x.startswith("completed")]
                         if a != b:
                             j = next((i for i in range(min(len(a), len(b))) if a[i] != b[i]), min(len(a), len(b)))
                             derr = "c=%d event %d: code '%s' model '%s'" % (c, j, a[j] if j < len(a) else "<end>", b[j] if j < len(b) else "<end>")
@@ -1071,6 +1269,43 @@ class Spec:
             elif derr:
                 failures.append(vlib.Failure("diff", "upg: model/code differ (%s) %s" % (cs.meta.get("kind"), sig_of(derr.split(":")[0])),
                                              derr, cs.lines, "upg"))
+
+    def run_tls(self, cases, failures, stats):
+        lines = [l for cs in cases for l in cs.lines]
+        hout, hrc, herr = vlib.run_lines(self.tls_harness, lines, timeout=1500)
+        mout, mrc, merr = vlib.run_lines(self.driver, lines, timeout=1500)
+        mout = [l for l in mout if not l.startswith("# ") and l != "#"]      # the driver echoes the operation
+        pos = 0
+        for cs in cases:
+            n = len(cs.lines)
+            ho, mo = hout[pos:pos + n], mout[pos:pos + n]
+            pos += n
+            stats["tls_cases"] = stats.get("tls_cases", 0) + 1
+            if len(ho) < n:
+                failures.append(vlib.Failure("sanitizer", "upgtls: harness aborted (rc=%d)" % hrc, herr[-2500:], cs.lines, "upgtls"))
+                break
+            for l, o in zip(cs.lines, ho):
+                if l.startswith("visit"):
+                    k = kvs(o.split())
+                    stats["tls_visits"] = stats.get("tls_visits", 0) + 1
+                    stats["tls_io:" + k.get("io", "?")] = stats.get("tls_io:" + k.get("io", "?"), 0) + 1
+                    if k.get("cr") == "1":
+                        stats["tls_visit_clean_ready"] = stats.get("tls_visit_clean_ready", 0) + 1
+                    if k.get("inS") == "0" and k.get("cr") == "0":
+                        stats["tls_visit_in_stopped"] = stats.get("tls_visit_in_stopped", 0) + 1
+                    if k.get("outS") == "0" and k.get("cr") == "0":
+                        stats["tls_visit_out_stopped"] = stats.get("tls_visit_out_stopped", 0) + 1
+            oerr = oracle_tls(cs.lines, ho, cs.meta.get("clean"))
+            derr = None
+            for i, (a, b) in enumerate(zip(ho, mo + [""] * n)):
+                if a != b:
+                    derr = "line %d '%s': code '%s' model '%s'" % (i, cs.lines[i][:80], a, b)
+                    break
+            if oerr:
+                failures.append(vlib.Failure("oracle", "upgtls: " + sig_of(oerr[0]), "; ".join(oerr[:3]) + (" | model diff: " + derr if derr else ""),
+                                             cs.lines, "upgtls"))
+            elif derr:
+                failures.append(vlib.Failure("diff", "upgtls: model/code differ " + sig_of(derr.split("'")[1].split()[0]), derr, cs.lines, "upgtls"))
 
     def run_tok(self, tier, failures, stats):
         lines = ["case tok"] + gen_tok_lines(tier)
@@ -1106,7 +1341,7 @@ class Spec:
         pre = gen_refusal_cases(ctx, ctx.tier)
         multi = gen_multi_cases(ctx, ctx.tier)
         hdr = gen_hdr_cases(ctx, ctx.tier)
-        thr = gen_thr_cases(ctx, ctx.tier) if ctx.tier == "thorough" else []
+        thr = gen_thr_cases(ctx, ctx.tier)      # quick: one case per (thread configuration, close timing)
         if boost:
             split += gen_split_cases(ctx, ctx.tier)
         cases += pre + hdr + multi + split
@@ -1127,7 +1362,10 @@ class Spec:
                     stats[k] = stats.get(k, 0) + v
         for b in [thr[i:i + 6] for i in range(0, len(thr), 6)]:
             self.run_cases(b, failures, stats)
-        allc = cases + thr
+        tls = gen_tls_cases(ctx, ctx.tier)
+        for b in [tls[i:i + 500] for i in range(0, len(tls), 500)]:
+            self.run_tls(b, failures, stats)
+        allc = cases + thr + tls
         distinct = len({"\n".join(c.lines[1:]) for c in allc})
         stream_len = len(mk_head() + FOLLOW)
         cov = {"evaluations": len(allc) + stats.get("tok_values", 0), "distinct_nontrivial": distinct,
@@ -1138,7 +1376,8 @@ class Spec:
                "exhaustive_subdomains": {"two_way_splits_of_head_plus_40": "all %d positions x {inside,later,never} x {select,epoll} x arenas {1024,4096,32768}" % (stream_len - 1),
                                          "byte_by_byte": "x 3 timings x 2 modes x 3 arenas",
                                          "has_token": "all concatenations of <= %d pieces of %d (%d values)" % (5 if ctx.tier == "thorough" else 4, len(TOK_PIECES), stats.get("tok_values", 0))},
-               "counts": {"split": len(split), "precondition": len(pre), "decorated_response": len(hdr), "multi_connection": len(multi), "internal_thread": len(thr), "corpus": ncorp},
+               "thread_configurations": ["%s pool=%d" % c for c in THR_CONFIGS],
+               "counts": {"split": len(split), "precondition": len(pre), "decorated_response": len(hdr), "tls_forwarding": len(tls), "multi_connection": len(multi), "internal_thread": len(thr), "corpus": ncorp},
                "distribution": {k: v for k, v in sorted(stats.items())},
                "strength": {"MHD_queue_response upgrade checks": "each precondition violated alone + controls, x early/final x modes (bounded-exhaustive)",
                             "execute_upgrade extra data": "exhaustive over 2-way split positions, random 3-way, byte-by-byte",
